@@ -1011,7 +1011,7 @@ func main() {
 			runCases([]ccase{c}, 0)
 			return
 		}
-		npairs, ntriples := r.N(3000, 120000), r.N(500, 30000)
+		npairs, ntriples := r.N(3000, 80000), r.N(500, 20000)
 		total := npairs + ntriples
 		const batch = 250
 		nb := (total + batch - 1) / batch
